@@ -4,7 +4,7 @@ from .propbase import *
 
 PROGRAMS = [
     "say \"hello world\"\nlisten to X\nsay X\nlisten\nlisten to Y\nsay Y plus \"!\"\n",
-    "listen to A\nlisten to B\nsay B\nsay A\nsay 42\n",
+    "listen to Apex\nlisten to B\nsay B\nsay Apex\nsay 42\n",
     "put 0 into N\nwhile N is less than 4\nbuild N up\nsay N\nlisten to L\nsay L\n\nsay \"done\"\n",
     "listen\nlisten\nsay 1\nlisten to X\nsay X\n",
     "say \"ünïcödé ✓\"\nlisten to X\nsay X\nsay \"\"\nsay mysterious\n",
